@@ -123,7 +123,7 @@ def parse_trace(log):
     i = 0
     while i + 17 <= len(b):
         op = chr(b[i]); off, n = struct.unpack_from('<qQ', b, i + 1); i += 17
-        if op in ('W', 'f'):
+        if op in ('W', 'f'):   # records that carry data
             out.append((op, off, b[i:i + n])); i += n
         else:
             out.append((op, off, n))
